@@ -168,6 +168,10 @@ def run(ctx):
                 eg = F.enclosing_item(F.fns[ru[1]])
                 if eg is not None and eg.impl_of and path_matches(eg.impl_of.get('self_head') or '', 'trace::Context') and eg.argc == 0:
                     continue     # a fresh root built by trace::Context's own argument-less constructor
+            if ru[0] == 'call' and callee_is(P.call_term(ru), 'Default::default') and path_matches((P.call_term(ru).get('self_ty') or '').strip(), 'trace::Context'):
+                continue     # `unwrap_or_default()` / `Default::default()` of trace::Context: the same fresh root
+            if r[0] == 'const' and r[2] == 'Default::default()' and not [x for x in p if x[0] in 'fv']:
+                continue     # the Default alternative of `unwrap_or_default()` on the whole trace context
             okc = False
             detc.append(P.describe(r) + str(list(norm_path(p))))
         R.ob('C18.current', ('Context::current', 'span-derived or fresh'), okc and bool(rsc),
